@@ -294,8 +294,16 @@ fn check_cli(c: &Case, ctx: &Ctx) -> Outcome {
     let m = materialise(c);
     let dir = ctx.case_dir();
     let (mut f1, mut f2) = write_reads(&dir, &m);
-    // a third of the cases: gzip-compressed read files
-    if (c.k + m.reads.len()) % 3 == 0 {
+    // file naming: .fastq or .fq, plain or gzip-compressed (the content decides what a file is, not its name)
+    let variant = (c.k / 2 + m.reads.len()) % 4;
+    if variant & 1 == 1 {
+        for f in [&mut f1, &mut f2] {
+            let fq = f.replace(".fastq", ".fq");
+            std::fs::rename(f.as_str(), &fq).unwrap();
+            *f = fq;
+        }
+    }
+    if variant & 2 == 2 {
         for f in [&mut f1, &mut f2] {
             let gz = format!("{f}.gz");
             cli::gzip(std::path::Path::new(f.as_str()), std::path::Path::new(&gz));
